@@ -1,5 +1,5 @@
 """C04 - load, save, load loses nothing; a second save changes nothing (structural clauses)."""
-from ..rules import readers, serial
+from ..rules import readers, serial, writers
 
 EXPLANATION = (
     "Static rule checking of 'whenever a text loads it can be serialized' and of the idempotence of the normalisers: R-NULL "
@@ -15,10 +15,8 @@ ASSUMPTIONS = [
 
 def c1(ctx):
     serial.null_sweep(ctx)
-    serial.writer_item_loop(ctx, serial.BASE_SERIALIZE, notes_exempt=False)
-    serial.writer_item_loop(ctx, serial.SSCCHART_SERIALIZE, notes_exempt=True)
-    serial.ssc_notes_item(ctx)
-    serial.ssc_skip_is_what_is_written_last(ctx)
+    writers.base_items(ctx)
+    writers.ssc_chart_items(ctx)
 
 
 def c2(ctx):
